@@ -5,7 +5,7 @@ from .. import env, coq, runner, gates, opsem
 
 LEVEL = 'translation_validation'
 META = dict(
-    text='Coq theorems (19, axiom-free): the MappingManager model (two arrays, apply_swap) keeps phys_to_log o log_to_phys = id for every swap sequence and a swap applied twice restores the mapping; the routing certificate checker route_ok is sound: an accepted routed list is exactly the emission, under mapped_op/apply_swap, of a logical stream that is trace-equivalent to the input, every two-qubit operation lies on a graph edge, the tracked mapping equals the reported swap map, and (route_ok_sem, over every ring with the laws, any number of qubits, any matrices) the routed circuit read through the final mapping computes the original circuit on the initial state read through the initial mapping; the CNOT.(HxH).CNOT.(HxH).CNOT block emitted on one-way edges equals SWAP exactly; Gateset.__contains__ (dictionary fast paths + scans) decides "some family accepts", type families follow isinstance along the mro, tag lists behave as documented, CircuitOperations are accepted iff unrolled and all inner operations are; device_accepts <-> in gateset /\\ qubits on device /\\ allowed pairs. On every run (translation validation of real outputs): optimize_for_target_gateset for 18 configurations of the CZ, sqrt-iSWAP, Sycamore, Google CZ, IonQ API/native, AQT and Pasqal targets on generated circuits: every output operation is accepted (gateset.validate, recomputed by the membership model inside Coq), input and output unitaries agree up to global phase (evaluated in Coq from each operation\'s own matrix), the input is unmodified; RouteCQC outputs over random connected (di)graphs and initial mappers pass route_ok (exact, vm_compute) and independently satisfy U_routed ~ P(swap_map) . U_ref; the real MappingManager arrays equal the model after random swap sequences; Gateset/GateFamily membership answers equal the model on ~16000 item x gateset pairs; GridDevice / AQT / Pasqal / IonQ validate_operation accepts exactly when the statement (and the device model) says so, and GridDevice (built from metadata and from DeviceSpecification protos) / IonQ validate_circuit accepts exactly the circuits all of whose operations are acceptable one by one (ordered pairs of tag / qubit variants of one gate); every library gate standing alone on its qubits, at every special exponent, is compiled for every target and compared in Coq.',
+    text='Coq theorems (20, axiom-free): the MappingManager model (two arrays, apply_swap) keeps phys_to_log o log_to_phys = id for every swap sequence and a swap applied twice restores the mapping; the routing certificate checker route_ok is sound: an accepted routed list is exactly the emission, under mapped_op/apply_swap, of a logical stream that is trace-equivalent to the input, every two-qubit operation lies on a graph edge, the tracked mapping equals the reported swap map, the reported swap map of an accepted certificate is a permutation of all placed physical qubits (used by the circuit or not; route_ok_final_perm), and (route_ok_sem, over every ring with the laws, any number of qubits, any matrices) the routed circuit read through the final mapping computes the original circuit on the initial state read through the initial mapping; the CNOT.(HxH).CNOT.(HxH).CNOT block emitted on one-way edges equals SWAP exactly; Gateset.__contains__ (dictionary fast paths + scans) decides "some family accepts", type families follow isinstance along the mro, tag lists behave as documented, CircuitOperations are accepted iff unrolled and all inner operations are; device_accepts <-> in gateset /\\ qubits on device /\\ allowed pairs. On every run (translation validation of real outputs): optimize_for_target_gateset for 18 configurations of the CZ, sqrt-iSWAP, Sycamore, Google CZ, IonQ API/native, AQT and Pasqal targets on generated circuits: every output operation is accepted (gateset.validate, recomputed by the membership model inside Coq), input and output unitaries agree up to global phase (evaluated in Coq from each operation\'s own matrix), the input is unmodified; RouteCQC outputs over random connected (di)graphs and initial mappers pass route_ok (exact, vm_compute) and independently satisfy U_routed ~ P(swap_map) . U_ref; the real MappingManager arrays equal the model after random swap sequences; Gateset/GateFamily membership answers equal the model on ~16000 item x gateset pairs; GridDevice / AQT / Pasqal / IonQ validate_operation accepts exactly when the statement (and the device model) says so, and GridDevice (built from metadata and from DeviceSpecification protos) / IonQ validate_circuit accepts exactly the circuits all of whose operations are acceptable one by one (ordered pairs of tag / qubit variants of one gate); every library gate standing alone on its qubits, at every special exponent, is compiled for every target and compared in Coq.',
     note='Trusted: Coq kernel; float instance (tolerance 2^-20 ~ 1e-6) for unitaries; the Python adapters that describe an operation abstractly (type ids along the mro, == class, the instance gates it equals up to global phase as re-derived with numpy, tags, qubit integers) and that identify operations up to their qubits; numpy oracles used only to classify a disagreement. The compilers themselves (KAK, merging, swap selection) are not modelled: their outputs are validated per generated program, so the quantifier over programs is sampled. route_ok_sem covers certificates without directed-graph pieces; for directed graphs the collapse of the tagged CNOT/H block into a SWAP rests on the exact identity directed_swap_block plus commutation with operations on other qubits (argued, not proved) and the A.6 relation is compared numerically. The choice between old and new decomposition by two-qubit count does not affect the property and is only recorded as a supporting observation.',
     technique='Rocq/Coq proofs about the mapping manager, certificate checker, membership and device models + per-program translation validation by vm_compute on real compiler and router outputs',
 )
@@ -856,6 +856,15 @@ def route_case(mods, rec):
         mapper = cirq.LineInitialMapper(G)
     elif rec['mapper'] == 'default':
         mapper = None
+    elif rec['mapper'] == 'custom':
+        # a user-written mapper: any AbstractInitialMapper may place more logical qubits than the circuit uses
+        placement = {cirq.LineQubit(a): phys[b] for a, b in rec['mapping']}
+
+        class RegisterMapper(cirq.AbstractInitialMapper):
+            def initial_mapping(self, circuit):
+                return dict(placement)
+
+        mapper = RegisterMapper()
     else:
         mapper = cirq.HardCodedInitialMapper({cirq.LineQubit(a): phys[b] for a, b in rec['mapping']})
     router = cirq.RouteCQC(G)
@@ -959,27 +968,82 @@ def relation_terms(mods, r):
     return lhs, rhs
 
 
+def without_measurements(cirq, circuit):
+    return cirq.Circuit(op for op in unrolled(cirq, circuit).all_operations() if not cirq.is_measurement(op))
+
+
+def show_map(m):
+    return '{' + ', '.join(f'{k}: {v}' for k, v in sorted(m.items())) + '}'
+
+
+def show_qs(qs):
+    return '[' + ', '.join(str(q) for q in sorted(qs)) + ']'
+
+
 def route_oracle(mods, r):
-    """Spec-level oracle on the real output (numpy): clause that fails, or ''."""
+    """Spec-level oracle on the real output (numpy), judged against the maps the router REPORTS: clause that fails, or ''.
+    Clauses: two-qubit operations on edges / on the device; the reported initial mapping places every qubit of the circuit
+    injectively on the device; the reported swap map is a permutation of the placed physical qubits (all of them: a placement of
+    a logical qubit the circuit never uses can be displaced by an inserted swap, which is an operation of the routed circuit);
+    U_routed = P(swap_map) . U(circuit moved by the initial mapping) up to phase (measurements left out on both sides)."""
     cirq = mods['cirq']
-    G = r['G']
+    G, init, swap = r['G'], r['init'], r['swap']
     for op in r['routed'].all_operations():
+        if any(q not in G.nodes for q in op.qubits):
+            return 'off-device', f'{op} uses a qubit that is not on the device'
         if len(op.qubits) == 2 and not cirq.is_measurement(op):
             a, b = op.qubits
             if not (G.has_edge(a, b) or (not G.is_directed() and G.has_edge(b, a))):
                 return 'off-edge', f'{op} is not on a graph edge'
-        if any(q not in G.nodes for q in op.qubits):
-            return 'off-device', f'{op} uses a qubit that is not on the device'
-    if not cirq.has_unitary(r['circuit']):
-        return '', 'non-unitary circuit: only the discrete clauses are decided here'
+    placed = set(init.values())
+    unplaced = sorted(q for q in r['circuit'].all_qubits() if q not in init)
+    if unplaced or len(placed) != len(init) or any(p not in G.nodes for p in placed):
+        return 'initial-mapping', (f'reported initial mapping {show_map(init)} does not place every circuit qubit on its own device qubit'
+                                   + (f' (unplaced: {show_qs(unplaced)})' if unplaced else ''))
     phys = sorted(G.nodes)
-    ref = r['circuit'].transform_qubits(lambda q: r['init'][q])
-    perm = [phys.index(r['swap'].get(p, p)) for p in phys]
-    P = cirq.unitary(cirq.QubitPermutationGate(perm)) if len(perm) > 1 and perm != list(range(len(perm))) else np.eye(2 ** len(phys))
-    d = phase_dist(py_unitary(cirq, r['routed'], phys), P @ py_unitary(cirq, ref, phys))
-    if d > 2e-6:
-        return 'not-equivalent', f'U_routed differs from P(swap_map) . U_ref by {d:.3g} (up to phase)'
-    return '', f'deviation {d:.3g}'
+    stray = sorted(q for q in set(swap) | set(swap.values()) if q not in G.nodes)
+    if stray:
+        return 'swap-map-not-permutation', f'reported swap map {show_map(swap)} mentions {show_qs(stray)}, which are not device qubits'
+    sigma = {p: swap.get(p, p) for p in phys}
+    missing = sorted(placed - set(swap))
+    if sorted(sigma.values()) != phys:
+        twice = sorted({v for v in sigma.values() if list(sigma.values()).count(v) > 1})
+        return 'swap-map-not-permutation', (
+            f'reported swap map {show_map(swap)} is not a permutation of the placed physical qubits {show_qs(placed)} (reported initial mapping '
+            f'{show_map(init)}): ' + (f'it has no entry for {show_qs(missing)}, and completed by the identity ' if missing else '') + f'it sends two qubits to {show_qs(twice)}, '
+            'so the routed circuit cannot equal the original up to the reported permutation')
+    if cirq.has_unitary(r['circuit']):
+        ref = without_measurements(cirq, r['circuit']).transform_qubits(lambda q: init[q])
+        perm = [phys.index(sigma[p]) for p in phys]
+        P = cirq.unitary(cirq.QubitPermutationGate(perm)) if len(perm) > 1 and perm != list(range(len(perm))) else np.eye(2 ** len(phys))
+        d = phase_dist(py_unitary(cirq, without_measurements(cirq, r['routed']), phys), P @ py_unitary(cirq, ref, phys))
+        if d > 2e-6:
+            return 'not-equivalent', (f'U_routed differs from P(swap_map) . U_ref by {d:.3g} (up to phase) for the reported initial mapping {show_map(init)} '
+                                      f'and swap map {show_map(swap)}')
+        detail = f'deviation {d:.3g}'
+    else:
+        detail = 'non-unitary circuit: only the discrete clauses are decided here'
+    if set(swap) != placed or set(swap.values()) != placed:
+        return 'swap-map-domain', (f'reported swap map {show_map(swap)} is not a map of the placed physical qubits {show_qs(placed)} onto themselves '
+                                   f'(no entry for {show_qs(missing)}; entries outside: {show_qs((set(swap) | set(swap.values())) - placed)})')
+    return '', detail
+
+
+def describe_route(cirq, rec, r=None):
+    """The concrete input of one router run, for a violation line."""
+    g = rec['graph']
+    qs = [qubit_of(cirq, sp) for sp in g['nodes']]
+    edges = ', '.join(f'{qs[a]}{"->" if g["directed"] else "-"}{qs[b]}' for a, b in g['edges'])
+    if rec['mapper'] in ('hard', 'custom'):
+        mp = ('HardCodedInitialMapper' if rec['mapper'] == 'hard' else 'custom AbstractInitialMapper') + ' {' + ', '.join(
+            f'{cirq.LineQubit(a)}: {qs[b]}' for a, b in rec['mapping']) + '}'
+    else:
+        mp = 'LineInitialMapper' if rec['mapper'] == 'line' else 'default mapper'
+    circuit = cirq.read_json(json_text=rec['circuit_json'])
+    ops = ', '.join(' '.join(str(op).split())[:90] for op in list(circuit.all_operations())[:8])
+    more = sum(1 for _ in circuit.all_operations()) - 8
+    return (f'RouteCQC({g["kind"]} graph {edges}).route_circuit([{ops}{f", ... {more} more" if more > 0 else ""}], lookahead_radius={rec["lookahead"]}, '
+            f'initial_mapper={mp})')
 
 
 def confirm_route(mods, rec):
@@ -991,14 +1055,136 @@ def confirm_route(mods, rec):
         return False, f'route_circuit raised {type(e).__name__}: {str(e)[:200]}', f'route:raises:{type(e).__name__}', rec
     clause, detail = route_oracle(mods, r)
     if clause:
-        return False, detail, f'route:{clause}:{"directed" if rec["graph"]["directed"] else "undirected"}', rec
+        return False, f'{describe_route(mods["cirq"], rec)}: {detail}', f'route:{clause}:{"directed" if rec["graph"]["directed"] else "undirected"}', rec
     return True, detail, None, rec
+
+
+def connected_subset(rng, g, size):
+    """Indices of `size` device nodes forming a connected region (edges read as undirected), grown from a random node."""
+    n = len(g['nodes'])
+    nb = {i: set() for i in range(n)}
+    for a, b in g['edges']:
+        nb[a].add(b)
+        nb[b].add(a)
+    chosen = [rng.randrange(n)]
+    while len(chosen) < size:
+        frontier = sorted({w for v in chosen for w in nb[v]} - set(chosen))
+        chosen.append(rng.choice(frontier))
+    return chosen
+
+
+def superset_mapping(rng, g, k, partial):
+    """A placement of the circuit's k logical qubits (LineQubit 100..100+k-1) and of spare register qubits the circuit never uses
+    (LineQubit numbers below, between and above the used ones, so that they sort anywhere among them) on a connected region: all device nodes, or
+    (partial) a connected part of the device with at least k nodes. Pairs (logical number, node index)."""
+    n = len(g['nodes'])
+    region = connected_subset(rng, g, rng.randint(k, n)) if partial else list(range(n))
+    rng.shuffle(region)
+    spare_numbers = rng.sample([90 + j for j in range(10)] + [100 + k + j for j in range(10)], len(region) - k)
+    logical = [100 + j for j in range(k)] + spare_numbers
+    return [(logical[j], region[j]) for j in range(len(region))]
+
+
+def fixed_graphs():
+    line = lambda n: dict(kind='line', nodes=[('L', i) for i in range(n)], edges=[(i, i + 1) for i in range(n - 1)], directed=False)
+    ring = lambda n: dict(kind='ring', nodes=[('L', i) for i in range(n)], edges=[(i, (i + 1) % n) for i in range(n)], directed=False)
+    star = dict(kind='tree', nodes=[('N', i) for i in range(4)], edges=[(0, 1), (0, 2), (0, 3)], directed=False)
+    grid = dict(kind='grid', nodes=[('G', i, j) for i in range(2) for j in range(3)], edges=[(0, 1), (1, 2), (3, 4), (4, 5), (0, 3), (1, 4), (2, 5)], directed=False)
+    both = dict(kind='line', nodes=[('L', i) for i in range(4)], edges=[(0, 1), (1, 0), (1, 2), (2, 1), (2, 3), (3, 2)], directed=True)
+    return [line(3), line(4), line(5), ring(5), star, grid, both]
+
+
+def idle_placement_grid(mods, rng):
+    """Fixed on every run (the rng only draws lookahead, gate and mapper flavour): on small lines, a ring, a star, a 2x3 grid and a two-way directed
+    line, two used logical qubits placed on every pair of device nodes that are NOT adjacent, every other node of a connected region holding a spare
+    logical qubit the circuit never uses -- so that every inserted swap necessarily displaces an idle placement -- and a third used qubit in some cases.
+    Yields (rec-fields, circuit)."""
+    import networkx as nx
+    cirq = mods['cirq']
+    for g in fixed_graphs():
+        n = len(g['nodes'])
+        U = nx.Graph(g['edges'])
+        dist = dict(nx.all_pairs_shortest_path_length(U))
+        far = [(a, b) for a in range(n) for b in range(n) if a != b and dist[a][b] >= 2]
+        for idx, (a, b) in enumerate(far):
+            if a > b and idx % 3:      # both orientations for a third of the pairs
+                continue
+            region = list(range(n))
+            if idx % 2 and n > dist[a][b] + 1:
+                region = nx.shortest_path(U, a, b)      # only the path between them is placed: the rest of the device stays empty
+            others = [v for v in region if v not in (a, b)]
+            third = others[idx % len(others)] if idx % 4 == 3 and len(others) >= 2 else None
+            spare_nodes = [v for v in others if v != third]
+            numbers = [90 + t if (t + idx) % 2 else 110 + t for t in range(len(spare_nodes))]
+            mapping = [(100, a), (101, b)] + ([(102, third)] if third is not None else []) + list(zip(numbers, spare_nodes))
+            mapping.sort(key=lambda e: (e[1] * 7 + idx) % 11)      # dict order of the placement is not the sorted order
+            qa, qb = cirq.LineQubit(100), cirq.LineQubit(101)
+            two = rng.choice([cirq.CNOT, cirq.CZ, cirq.ISWAP ** 0.5, cirq.CZ ** 0.3, cirq.FSimGate(0.3, 0.7)])
+            ops = [cirq.H(qa), two(qa, qb), cirq.T(qb)]
+            if third is not None:
+                qc = cirq.LineQubit(102)
+                ops += [cirq.X(qc) ** 0.5, cirq.CNOT(qc, qa), cirq.CZ(qb, qc) ** 0.5]
+            if idx % 5 == 4:
+                ops.append(cirq.measure(qa, qb, key='out'))
+            yield dict(graph=g, mapper='custom' if idx % 4 == 1 else 'hard', mapping=mapping, lookahead=rng.choice([1, 2, 8])), cirq.Circuit(ops)
+
+
+def route_one(ctx, mods, checks, g, circuit, mp, mapping, lookahead, sample_extra):
+    cirq = mods['cirq']
+    n = len(g['nodes'])
+    rec = dict(kind='route', graph=g, circuit_json=cirq.to_json(circuit), mapper=mp, mapping=mapping, lookahead=lookahead, circuit=str(circuit)[:1200])
+    dirn = 'directed' if g['directed'] else 'undirected'
+    stream = 'route:' + dirn
+    before = rec['circuit_json']
+    try:
+        r = route_case(mods, rec)
+    except Timeout:
+        ctx.count(stream, [g, before, mp], True)
+        ctx.violation(f'route:hang:{dirn}', f'route_circuit did not return within {rec.get("timeout", 8)} s on a connected {g["kind"]} graph: {describe_route(cirq, rec)}', rec)
+        return
+    except Exception as e:
+        ctx.count(stream, [g, before, mp], True)
+        ctx.violation(f'route:raises:{type(e).__name__}', f'route_circuit raised {type(e).__name__}: {str(e)[:200]} on a connected {g["kind"]} graph: {describe_route(cirq, rec)}', rec)
+        return
+    tag = cirq.RoutingSwapTag()
+    swaps = [op for op in r['routed'].all_operations() if tag in op.tags and op.gate == cirq.SWAP]
+    n_blocks = sum(1 for op in r['routed'].all_operations() if tag in op.tags and op.gate == cirq.CNOT) // 3
+    used = {r['init'][q] for q in circuit.all_qubits() if q in r['init']}
+    idle_placed = len(set(r['init'].values()) - used)
+    # an inserted swap whose partner is a placed-but-unused logical qubit (tracked through the swaps of undirected runs)
+    idle_displaced, holds_used = 0, set(used)
+    for op in swaps:
+        a, b = op.qubits
+        if (a in holds_used) != (b in holds_used):
+            idle_displaced += 1
+            holds_used ^= {a, b}
+    ctx.count(stream, [g, before, mp, lookahead, mapping], len(swaps) + n_blocks > 0,
+              sample=dict(graph=g['kind'], nodes=n, directed=g['directed'], mapper=mp, ops=sum(1 for _ in circuit.all_operations()),
+                          inserted_swaps=len(swaps), directed_swap_blocks=n_blocks, idle_placements=idle_placed, **sample_extra))
+    if idle_placed:
+        ctx.count(stream + ':idle-placement', [g, before, mp, lookahead, mapping], idle_displaced > 0)
+    if cirq.to_json(circuit) != before:
+        ctx.violation('route:input-modified', 'route_circuit modified its input circuit', rec)
+    term, why = certificate(mods, r)
+    if term is None:
+        clause, detail = route_oracle(mods, r)
+        ctx.violation(f'route:{clause}:{dirn}' if clause else 'route:certificate-unwritable',
+                      f'{describe_route(cirq, rec)}: {detail if clause else why + " (" + detail + ")"}', rec)
+        return
+    checks.append((stream + ':certificate', term, 'the routing certificate (two-qubit operations on edges, un-mapped stream trace-equivalent to the input, tracked mapping = reported swap map) is rejected',
+                   dict(signature=f'route:certificate:{dirn}', **rec)))
+    if cirq.has_unitary(circuit) and not any(cirq.is_measurement(op) for op in circuit.all_operations()) and n <= 5:
+        lhs, rhs = relation_terms(mods, r)
+        checks.append((stream + ':relation', f'fcll_close_phase {TOL} {lhs} {rhs}', 'U_routed differs from P(swap_map) . U_ref (DESIGN A.6)',
+                       dict(signature=f'route:relation:{dirn}', **rec)))
+        ctx.count(stream + ':relation', [g, before, mp, lookahead, mapping], len(swaps) + n_blocks > 0)
 
 
 def routing_stream(ctx, mods, checks, n_cases):
     cirq = mods['cirq']
     rng = ctx.rng
-    tagset = set()
+    for fields, circuit in idle_placement_grid(mods, rng):
+        route_one(ctx, mods, checks, fields['graph'], circuit, fields['mapper'], fields['mapping'], fields['lookahead'], dict(fixed_grid=True))
     for i in range(n_cases):
         big = i % 3 == 2
         g = gen_graph(mods, rng, big=big)
@@ -1006,49 +1192,15 @@ def routing_stream(ctx, mods, checks, n_cases):
         k = rng.randint(2, n) if n >= 2 else 1
         measure = rng.random() < 0.25
         circuit, lq = gen_route_circuit(mods, rng, k, measure)
-        mp = rng.choice(['hard', 'hard', 'line', 'default'])
-        if g['directed']:
+        mp = rng.choice(['hard', 'hard', 'hard_partial', 'custom', 'line', 'default'])
+        if g['directed'] and mp in ('line', 'default'):
             mp = 'hard'           # the line mapper needs a strongly connected graph (nx.center); directed devices use a given placement
         mapping = None
-        if mp == 'hard':
-            # a bijection between all device nodes and logical qubits (the circuit's plus spare ones): every placement is connected
-            nodes = list(range(n))
-            rng.shuffle(nodes)
-            mapping = [(100 + j, nodes[j]) for j in range(n)]
-        rec = dict(kind='route', graph=g, circuit_json=cirq.to_json(circuit), mapper=mp, mapping=mapping, lookahead=rng.choice([1, 2, 8, 8]),
-                   circuit=str(circuit)[:1200])
-        stream = 'route:' + ('directed' if g['directed'] else 'undirected')
-        before = cirq.to_json(circuit)
-        try:
-            r = route_case(mods, rec)
-        except Timeout:
-            ctx.count(stream, [g, before, mp], True)
-            ctx.violation(f'route:hang:{"directed" if g["directed"] else "undirected"}', f'route_circuit did not return within {rec.get("timeout", 8)} s on a connected {g["kind"]} graph', rec)
-            continue
-        except Exception as e:
-            ctx.count(stream, [g, before, mp], True)
-            ctx.violation(f'route:raises:{type(e).__name__}', f'route_circuit raised {type(e).__name__}: {str(e)[:200]} on a connected {g["kind"]} graph', rec)
-            continue
-        n_swaps = sum(1 for op in r['routed'].all_operations() if cirq.RoutingSwapTag() in op.tags and op.gate == cirq.SWAP)
-        n_blocks = sum(1 for op in r['routed'].all_operations() if cirq.RoutingSwapTag() in op.tags and op.gate == cirq.CNOT) // 3
-        ctx.count(stream, [g, before, mp, rec['lookahead'], mapping], n_swaps + n_blocks > 0,
-                  sample=dict(graph=g['kind'], nodes=n, directed=g['directed'], logical_qubits=k, mapper=mp, ops=sum(1 for _ in circuit.all_operations()),
-                              inserted_swaps=n_swaps, directed_swap_blocks=n_blocks, measured=measure))
-        if cirq.to_json(circuit) != before:
-            ctx.violation('route:input-modified', 'route_circuit modified its input circuit', rec)
-        term, why = certificate(mods, r)
-        if term is None:
-            holds, detail, sig, _ = confirm_route(mods, rec)
-            ctx.violation(sig or 'route:certificate-unwritable', f'router output cannot be expressed as a certificate: {why} ({detail})', rec)
-            continue
-        checks.append((stream + ':certificate', term, 'the routing certificate (two-qubit operations on edges, un-mapped stream trace-equivalent to the input, tracked mapping = reported swap map) is rejected',
-                       dict(signature=f'route:certificate:{"directed" if g["directed"] else "undirected"}', **rec)))
-        if not measure and n <= 5:
-            lhs, rhs = relation_terms(mods, r)
-            checks.append((stream + ':relation', f'fcll_close_phase {TOL} {lhs} {rhs}', 'U_routed differs from P(swap_map) . U_ref (DESIGN A.6)',
-                           dict(signature=f'route:relation:{"directed" if g["directed"] else "undirected"}', **rec)))
-            ctx.count(stream + ':relation', [g, before, mp, rec['lookahead'], mapping], n_swaps + n_blocks > 0)
-
+        if mp in ('hard', 'hard_partial', 'custom'):
+            # the circuit's logical qubits plus spare ones the circuit never uses, on all device nodes or on a connected part of the device
+            mapping = superset_mapping(rng, g, k, partial=mp == 'hard_partial' or (mp == 'custom' and rng.random() < 0.5))
+            mp = 'custom' if mp == 'custom' else 'hard'
+        route_one(ctx, mods, checks, g, circuit, mp, mapping, rng.choice([1, 2, 8, 8]), dict(logical_qubits=k, measured=measure))
 
 
 # ---------------------------------------------------------------- devices and the mapping manager
@@ -1476,8 +1628,13 @@ def run(ctx):
                 'beside a spectator qubit or next to a no-compile tagged native operation. '
                 'membership: ~400 gates/operations (subclass instances, exponents modulo the period, tags, CircuitOperations, gate-less operations) x '
                 '25 gatesets and one random family each; both answers occur. route: line/ring/grid/tree/tree+chords graphs with 2-9 nodes, 35% directed, '
-                'hard-coded bijective placements, LineInitialMapper and the default mapper, lookahead 1/2/8, 2-12 one- and two-qubit operations, tags, '
-                'CircuitOperations, terminal measurements in 25%; non-trivial = at least one inserted swap; the A.6 relation for measurement-free cases on <= 5 nodes. '
+                'HardCodedInitialMapper and a user-written AbstractInitialMapper whose placements are supersets of the circuit\'s qubits (spare logical qubits the circuit never uses, '
+                'sorting below / between / above the used ones, on all device nodes or on a connected part of the device), LineInitialMapper and the default mapper, lookahead 1/2/8, '
+                '2-12 one- and two-qubit operations, tags, CircuitOperations, terminal measurements in 25%; on every run a fixed grid (lines 3-5, ring 5, star, 2x3 grid, two-way directed line): '
+                'two used qubits on every non-adjacent pair of nodes with idle placements on the nodes between them, so that every inserted swap displaces an idle placement '
+                '(stream route:*:idle-placement, non-trivial = an inserted swap exchanges a used and an idle placement); non-trivial = at least one inserted swap; '
+                'everything is judged against the initial mapping and swap map the router REPORTS (swap map = permutation of all placed physical qubits); '
+                'the A.6 relation for measurement-free cases on <= 5 nodes. '
                 'mapping_manager: random connected placements and swap sequences. device: generated GridDevice specs (qubits, pairs, gatesets with tagged and '
                 'integer-power families), AQT, Pasqal (plain and virtual with a control radius), IonQ API devices x 40 operations each on and off the device; on every run also '
                 'four fixed gatesets with tag-dependent families (with and without the complementary family) and five DeviceSpecification protos through GridDevice.from_proto '
